@@ -44,12 +44,13 @@ func fmtScaled(v *big.Int, fd int) string {
 	return out
 }
 
-// identity hierarchy: m0 { b0; d1 <- b0; d2 <- d1 (obsolete); other }  m1 { e1 <- m0:d1; e2 <- e1 (deprecated); u1 }
+// identity hierarchy: m0 { b0; d1 <- b0; d2 <- d1 (obsolete); other; e1 <- b0 }  m1 { e1 <- m0:d1; e2 <- e1 (deprecated); u1; d2 <- m0:b0; d2x <- d2 }
+// (m0:e1 and m1:e1, m0:d2 and m1:d2 are different identities that share a name)
 func modules(t *sg.TypeSpec, hops int) []*sg.Mod {
-	m0 := &sg.Mod{Name: "m0", Prefix: "m0", Identities: []*sg.Identity{{Name: "b0"}, {Name: "d1", Base: "b0"}, {Name: "d2", Base: "d1", Status: "obsolete"}, {Name: "other"}},
+	m0 := &sg.Mod{Name: "m0", Prefix: "m0", Identities: []*sg.Identity{{Name: "b0"}, {Name: "d1", Base: "b0"}, {Name: "d2", Base: "d1", Status: "obsolete"}, {Name: "other"}, {Name: "e1", Base: "b0"}},
 		Nodes: []*sg.Node{{Kind: "container", Name: "m0-top", Kids: []*sg.Node{{Kind: "leaf", Name: "x", Type: &sg.TypeSpec{Name: "string"}}}}}}
 	m1 := &sg.Mod{Name: "m1", Prefix: "m1", Imports: []sg.Import{{Mod: "m0", Prefix: "m0"}},
-		Identities: []*sg.Identity{{Name: "e1", Base: "m0:d1"}, {Name: "e2", Base: "e1", Status: "deprecated"}, {Name: "u1"}, {Name: "lb"}, {Name: "l1", Base: "lb"}},
+		Identities: []*sg.Identity{{Name: "e1", Base: "m0:d1"}, {Name: "e2", Base: "e1", Status: "deprecated"}, {Name: "u1"}, {Name: "lb"}, {Name: "l1", Base: "lb"}, {Name: "d2", Base: "m0:b0"}, {Name: "d2x", Base: "d2"}},
 		Nodes:      []*sg.Node{{Kind: "container", Name: "m1-top", Kids: []*sg.Node{{Kind: "leaf", Name: "v", Type: t}}}}}
 	// the same type reached by reference: value space, messages and app-tags must be those of the definition
 	// with hops, the last pattern of a string type may move from the innermost typedef to the leaf's own refinement of
@@ -98,7 +99,7 @@ func (vctx) AllowIncompletePaths() bool { return false }
 func identNames(base string) []string {
 	switch base {
 	case "m0:b0":
-		return []string{"m0:d1", "m0:d2", "e1", "e2"}
+		return []string{"m0:d1", "m0:d2", "m0:e1", "e1", "e2", "d2", "d2x"}
 	case "m0:d1":
 		return []string{"m0:d2", "e1", "e2"}
 	case "e1":
